@@ -22,7 +22,20 @@ whitespace modes single/oneline; '{{' directly followed by '%'/'#'; else/elif/ex
 only Python's grammar rejects, `{% raw %}`, `{% if %}` ... (ParseError *or* SyntaxError at load time
 accepted); apply whose function expression and body both raise.
 
-Sensitivity (quick tier, seed 1, scratch copy of /repo/tornado):  see the end of this docstring.
+Open findings on the current tree (known_findings.d/C19.json, findings_inbox/C19-*.md): `{% autoescape %}`
+without a function is accepted and turns escaping off; `{% whitespace <bad mode> %}` raises a bare
+Exception; "block missing name"/"apply missing method name" name the line of the matching end tag.
+
+Sensitivity (quick tier, seed 1, scratch copy of /repo/tornado/template.py; all 9 caught):
+  M1 _IntermediateControlBlock writes the else/elif/except line at indent_size() instead of -1 -> C19.wellformed_rejected (SyntaxError)
+  M2 '{{!' escape consumes two characters instead of one                                     -> C19.output
+  M3 filter_whitespace("single") replaces newline runs by " " instead of "\n"                -> C19.output
+  M4 apply body parsed with the enclosing in_loop (not reset)                                -> C19.illformed_no_parse_error (ill_jump_in_apply_in_loop)
+  M5 named blocks resolved parent-last (parent's block wins over the child's)                -> C19.output
+  M6 _TemplateReader.consume miscounts a newline at the end of the consumed span             -> C19.parse_error_line
+  M7 "innermost braces" rule for runs of >2 '{' disabled                                     -> C19.wellformed_rejected
+  M8 'else' no longer allowed under 'while'                                                  -> C19.wellformed_rejected
+  M9 text reached through include/block is never whitespace-filtered (file mode ignored)     -> C19.output
 """
 import logging
 
@@ -35,7 +48,7 @@ from vlib import tmplref as R
 from vlib.runner import HarnessError
 
 PROPERTY = "C19"
-READY = False
+READY = True
 RULE = (
     "Hypothesis-generated template programs: 1-4 files from 10 extends/include topologies (relative names, "
     "sub-directories), bodies from a recursive grammar (depth <= 3 below the file, <= 14 nodes per file) over "
@@ -56,7 +69,7 @@ ASSUMPTIONS = [
 ]
 TECHNIQUE = "property-based testing (Hypothesis): differential against an independent reference interpreter + named ill-forming mutations"
 LEVEL_TEXT = (
-    "bounded exploration: ~1.7k generated multi-file template programs per quick run (~80k thorough), nesting depth <= 4, "
+    "bounded exploration: ~1.5k generated multi-file template programs per quick run (~45k thorough), nesting depth <= 4, "
     "fixed expression pool and namespace; no claim for templates outside the generated grammar"
 )
 SHARDS = 16
@@ -221,10 +234,10 @@ def run_case(ctx, case):
         elif ref[0] != "either":
             raise HarnessError("reference accepts the mutated template %r: %r -> %r" % (case["mutation"], files, ref[:2]))
         if real[0] != "parse":
-            if real[0] == "load_exc":
-                ctx.fail("C19.illformed_not_parse_error", detail, sig="C19.illformed_not_parse_error." + sigbase)
-            else:
-                ctx.fail("C19.illformed_accepted", detail, sig="C19.illformed_accepted." + sigbase)
+            # one signature per input class whatever happened instead (accepted / SyntaxError of the
+            # generated code / bare Exception): what follows a missed ParseError depends on the rest
+            detail["instead"] = "accepted" if real[0] in ("ok", "gen_exc") else real[1]
+            ctx.fail("C19.illformed_no_parse_error", detail, sig="C19.illformed_no_parse_error." + sigbase)
             ctx.note(case, labels, True)
             return
         _, lineno, filename, message = real
@@ -284,5 +297,5 @@ PARTS = {"main": run_case, "illformed": run_case}
 
 def main(ctx):
     ctx.run_replays(PARTS)
-    ctx.explore(G.case_strategy("c19", mutate_prob=(0, 0)), run_case, ctx.n(1100, 50000), name="main")
-    ctx.explore(G.case_strategy("c19", mutate_prob=(1, 1)), run_case, ctx.n(600, 30000), name="illformed")
+    ctx.explore(G.case_strategy("c19", mutate_prob=(0, 0)), run_case, ctx.n(1000, 30000), name="main")
+    ctx.explore(G.case_strategy("c19", mutate_prob=(1, 1)), run_case, ctx.n(500, 15000), name="illformed")
